@@ -18,7 +18,8 @@
    The rule for if / else is C09_if_else_block_rule.
    The rule for the while loop (with a loop invariant over the accumulated condition) is C09_while_loop_rule.
    _breakif: C09_breakif_rule.
-   Not proved in Coq: the same rules for elif chains and for blocks, and variables holding other kinds than secret
+   The for loop with a secret bound: C09_for_loop_rule.
+   Not proved in Coq: the same rule for elif chains, checkstopmax, and variables holding other kinds than secret
    integers (the model of these -- ctx_while, nodefvals bookkeeping, object identities -- is compared with the code trace for trace);
    that model is tied to the code by the trace correspondence, and the check compares every generated program with a
    native-control-flow twin, evaluates the constraints on the witness and compares shapes across branch choices. *)
@@ -177,6 +178,28 @@ Theorem C09_breakif_rule : forall (p : Z), prime p -> forall ins ig (c : cfg) (c
      Q (with_stack (with_vals b (IfRule.lcs xs)) ({| bk := KWhile; bcond := PBool 0 cc; bbak := IfRule.lcs xs; borig := orig; bnodef := Some []; bicond := None |} :: rest)) s' sg') ->
   Wp.wp ins ig (gen_top c (SBreakIf cn) b) s sg Q.
 Proof. intros p Hp ins ig c. exact (IfRule.obreakif_rule ins ig c). Qed.
+(* The oblivious for loop of the model ( for i in _range(start, regs[stop], max=maxv): regs[ix] = i; body ; _endfor(), checkstopmax off ):
+   max - start iterations run (at least one); iteration k runs with the index start + k under the accumulated condition
+   acc_k = [start <> stop] * ... * [start + k <> stop]  (1 exactly while the index has not reached the secret bound); between iterations the
+   variables are merged old + acc * (new - old) (WhileContext._while), after the last one by _endfor.  With a loop invariant J and a final
+   predicate Jend: *)
+Theorem C09_for_loop_rule : forall (p : Z), prime p -> forall ins ig (c : cfg) (body : list stmt) (ix : nat) (start : Z) (stop : nat) (maxv : Z) (b : @Prog.bst p) (sx : Sym.slc p)
+    (J : nat -> Prog.regs (p:=p) -> list (nat * Sym.slc p) -> Sym.slc p -> Sym.store -> Prop) (Jend : Prog.regs (p:=p) -> list (nat * Sym.slc p) -> Sym.store -> Prop),
+  let n := Z.to_nat (maxv - start - 1) in
+  (forall k b0 cx vals o cc sgJ s1 sg1, (k <= n)%nat -> WpBase.Inv ins ig s1 sg1 -> bstack b0 = cx :: bstack b -> bvals b0 = IfRule.lcs vals -> bcond cx = PBool o cc ->
+    J k (bregs b0) vals cc sgJ -> ext sgJ sg1 ->
+    Wp.wp ins ig (gen_stmts c body (with_regs b0 (rset (bregs b0) ix (PInt (start + Z.of_nat k))))) s1 sg1
+      (fun b2 s2 sg2 => WpBase.Inv ins ig s2 sg2 /\ ext sg1 sg2 /\ bstack b2 = bstack b0 /\
+         exists news, bvals b2 = IfRule.lcs news /\ NoDup (map fst news) /\ Forall (pre ins ig (IfRule.lcs vals) s2 sg2) news /\
+           ((k < n)%nat -> forall xs cc' s3 sg3 sgc, WpBase.Inv ins ig s3 sg3 -> ext sg2 sgc -> ext sgc sg3 -> Forall2 (IfRule.merged ins ig (IfRule.lcs vals) cc sgc s3 sg3) news xs -> sc s3 cc' ->
+              Sym.veval p ins ig sg3 (sval cc') = Sym.veval p ins ig sg2 (sval cc) * (if (start + Z.of_nat k + 1) =? Sym.veval p ins ig sg2 (sval sx) then 0 else 1) -> J (S k) (bregs b2) xs cc' sg3) /\
+           (k = n -> forall xs s3 sg3, WpBase.Inv ins ig s3 sg3 -> ext sg2 sg3 -> Forall2 (IfRule.merged ins ig (IfRule.lcs vals) cc sg2 s3 sg3) news xs -> Jend (bregs b2) xs sg3))) ->
+  forall (vals0 : list (nat * Sym.slc p)) s sg (Q : @Prog.bst p -> @Gadgets.gst p -> Sym.store -> Prop),
+  WpBase.Inv ins ig s sg -> rget (bregs b) stop = PLC sx -> sc s sx -> bvals b = IfRule.lcs vals0 -> NoDup (map fst vals0) ->
+  (forall cc s1 sg1, WpBase.Inv ins ig s1 sg1 -> ext sg sg1 -> sc s1 cc -> Sym.veval p ins ig sg1 (sval cc) = (if start =? Sym.veval p ins ig sg (sval sx) then 0 else 1) -> J 0%nat (bregs b) vals0 cc sg1) ->
+  (forall b4 s4 sg4 xs, WpBase.Inv ins ig s4 sg4 -> ext sg sg4 -> Jend (bregs b4) xs sg4 -> bstack b4 = bstack b -> bvals b4 = IfRule.lcs xs -> Q b4 s4 sg4) ->
+  Wp.wp ins ig (gen_top c (SOFor ix start stop maxv false body) b) s sg Q.
+Proof. intros p Hp ins ig c body ix start stop maxv b sx J Jend n HS. exact (IfRule.ofor_rule ins ig (field_ok_prime p Hp) c body ix start stop maxv b sx J Jend HS). Qed.
 (* the selection is the native choice on 0/1 conditions *)
 Theorem C09_selection_is_native_choice : forall t f, sel 1 t f = t /\ sel 0 t f = f.
 Proof. intros t f. split; [apply sel_1|apply sel_0]. Qed.
@@ -228,12 +251,20 @@ Example C09_model_while_example :
   (nth 26 (map (fun o => snd (fst o)) (outs (run 5))) 0, raised (run 5)) = (8, None).
 Proof. vm_compute. repeat split; reflexivity. Qed.
 
+(* non-vacuity of the for rule at the level of the model: _.v = 0; for i in _range(0, n, max=4): _.v = _.v + i *)
+Example C09_model_for_example :
+  let pr := [SInput 0 IPriv 0; SConstVal 1 0; SBSet 7 1; SOFor 2 0 0 4 false [SBGet 3 7; SBin 4 OAdd 3 2; SBSet 7 4]; SBGet 5 7] in
+  let run nn := model_run (p:=65537) {| bitlength := 8%nat; resolution := 0 |} pr [nn] false in
+  map (fun nn => (nth 14 (map (fun o => snd (fst o)) (outs (run nn))) 77, raised (run nn))) [0; 1; 2; 3; 4] = [(0, None); (0, None); (1, None); (3, None); (6, None)].
+Proof. vm_compute. reflexivity. Qed.
+
 Print Assumptions C09_oblivious_equals_native.
 Print Assumptions C09_merge_primitive.
 Print Assumptions C09_if_block_rule.
 Print Assumptions C09_conditional_assignment.
 Print Assumptions C09_if_else_block_rule.
 Print Assumptions C09_while_loop_rule.
+Print Assumptions C09_for_loop_rule.
 Print Assumptions C09_breakif_rule.
 Print Assumptions C09_conditional_assignments.
 Print Assumptions C09_merge_at_block_exit.
